@@ -174,7 +174,7 @@ def runJob (bodies : List Body) (s : St) (j : Job) : St :=
   | .thenable target q => performThen s q (.resolveFns target)     -- q.then(resolve_target, reject_target)
   | .reaction (.resolveFns target) fulfil v =>
     if fulfil then resolveWithLatch s target v else settleLatch s target v
-  | .reaction (.awaitCont next resultP) fulfil v => runSegment bodies 64 s next v (!fulfil) resultP
+  | .reaction (.awaitCont next resultP) fulfil v => runSegment bodies 4096 s next v (!fulfil) resultP
   | .reaction (.handlers onF onR d) fulfil v =>
     match (if fulfil then onF else onR) with
     | none => if fulfil then callResolve s d v else callReject s d v
@@ -183,7 +183,7 @@ def runJob (bodies : List Body) (s : St) (j : Job) : St :=
       | none => s
       | some body =>
         let s1 := { s with trace := (body.tag, v) :: s.trace }
-        let s2 := runOps bodies 64 s1 v body.ops
+        let s2 := runOps bodies 4096 s1 v body.ops
         match body.res with
         | .ret r => callResolve s2 d (evalV s2 v r)
         | .thr r => callReject s2 d (evalV s2 v r)
@@ -207,7 +207,7 @@ def drain (bodies : List Body) : Nat → St → St
 /-- evaluate the main body (index 0) -/
 def evalMain (bodies : List Body) : St :=
   match bodies[0]? with
-  | some b => runOps bodies 64 St.init (.num 0) b.ops
+  | some b => runOps bodies 4096 St.init (.num 0) b.ops
   | none => St.init
 
 end BoaVerif.C16
